@@ -104,7 +104,9 @@ def sweep_cifar(tier, seed):
 
 def check_emnist(inp):
   n, fmt = inp['num'], inp['fmt']
-  cid = (b'0123456789abcdef:' if fmt == 25 else b'') + b'f%04d_%02d' % (n, 7)
+  # the 16-hex-digit hash may itself contain an 'f' followed by four digits, on either side of the range
+  hashes = {25: b'0123456789abcdef:', 26: b'a3f2345bc9d01e77:', 27: b'a3f0007bc9d01e77:'}
+  cid = (hashes[fmt] if fmt >= 25 else b'') + b'f%04d_%02d' % (n, 7)
   want = 0 if 2100 <= n <= 2599 else 1
   if emnist.domain_id(cid) != want:
     return f'domain_id({cid!r}) = {emnist.domain_id(cid)}, expected {want}'
@@ -118,7 +120,7 @@ def check_emnist(inp):
 
 def sweep_emnist(tier, seed):
   for n in (0, 2099, 2100, 2101, 2350, 2599, 2600, 4099):
-    for fmt in (25, 8):
+    for fmt in (25, 8, 26, 27):
       yield dict(num=n, fmt=fmt)
 
 
